@@ -34,6 +34,7 @@ type solveOpts struct {
 	allAgree   bool // thorough: every solver that answers must agree
 	keep       bool
 	par        int
+	only       string // run just this solver (fast pass)
 }
 
 type solverAnswer struct {
@@ -96,17 +97,26 @@ func discharge(o *Oblig, opts solveOpts) {
 	}
 	ctx, cancel := context.WithCancel(context.Background())
 	defer cancel()
-	ch := make(chan solverAnswer, len(solvers))
+	active := solvers
+	if opts.only != "" {
+		active = nil
+		for _, sp := range solvers {
+			if sp.name == opts.only {
+				active = append(active, sp)
+			}
+		}
+	}
+	ch := make(chan solverAnswer, len(active))
 	to := opts.timeoutSec
 	if o.ExpectSat && to > 3 {
 		to = 3
 	}
-	for _, sp := range solvers {
+	for _, sp := range active {
 		go func(sp solverSpec) { ch <- runSolver(ctx, sp, fname, to) }(sp)
 	}
 	var answers []solverAnswer
 	var definite *solverAnswer
-	for range solvers {
+	for range active {
 		a := <-ch
 		answers = append(answers, a)
 		if a.result == "sat" || a.result == "unsat" {
@@ -176,19 +186,43 @@ func (o *Oblig) ok() bool {
 	return o.Result == "unsat"
 }
 
+// dischargeAll works in two stages: a fast pass with one solver and a short
+// timeout on all cores, then the full portfolio race with the full timeout on
+// what is left (few obligations at a time, so that the solvers get whole cores).
 func dischargeAll(obls []*Oblig, opts solveOpts) {
-	var wg sync.WaitGroup
-	sem := make(chan struct{}, opts.par)
-	for _, o := range obls {
-		wg.Add(1)
-		sem <- struct{}{}
-		go func(o *Oblig) {
-			defer wg.Done()
-			defer func() { <-sem }()
-			discharge(o, opts)
-		}(o)
+	run := func(list []*Oblig, par int, f func(o *Oblig)) {
+		var wg sync.WaitGroup
+		sem := make(chan struct{}, par)
+		for _, o := range list {
+			wg.Add(1)
+			sem <- struct{}{}
+			go func(o *Oblig) {
+				defer wg.Done()
+				defer func() { <-sem }()
+				f(o)
+			}(o)
+		}
+		wg.Wait()
 	}
-	wg.Wait()
+	var rest []*Oblig
+	if !opts.allAgree {
+		fast := opts
+		fast.timeoutSec = 2
+		fast.only = "z3-new"
+		run(obls, opts.par, func(o *Oblig) { discharge(o, fast) })
+		for _, o := range obls {
+			if o.Structural {
+				continue
+			}
+			if o.Result == "unsat" || o.Result == "sat" {
+				continue
+			}
+			rest = append(rest, o)
+		}
+	} else {
+		rest = obls
+	}
+	run(rest, 4, func(o *Oblig) { discharge(o, opts) })
 }
 
 var constCache = map[string]string{}
